@@ -111,9 +111,10 @@ def strategy_(draw):
             # either a new options dictionary, or the dictionary handed over last time edited in place and handed over again
             ops.append(["solver", {"ipopt.max_iter": draw(st.integers(0, 3))}, draw(st.booleans())])
         elif kind == "set_T":
-            ops.append(["set_T", draw(st.sampled_from([0.5, 1.0, 1.5, 2.0]))])
+            # a number, or the horizon (re-)declared free with a new guess
+            ops.append(["set_T", draw(st.sampled_from([0.5, 1.0, 1.5, 2.0])), draw(st.integers(0, 2)) == 0])
         elif kind == "set_t0":
-            ops.append(["set_t0", draw(st.sampled_from([0.0, 0.5, -1.0]))])
+            ops.append(["set_t0", draw(st.sampled_from([0.0, 0.5, -1.0])), draw(st.integers(0, 2)) == 0])
     cands_ = [d for d in sp["params"] if not d["name"].startswith("hp_")]
     ctrl_ = [d for d in syms if d in sp["controls"]]
     if cands_ and ctrl_ and draw(st.integers(0, 2)) == 0:
@@ -124,6 +125,9 @@ def strategy_(draw):
         # a constraint on the collocation points, a query, clear_constraints, a query: nothing of it may survive
         tsig_ = gen.leaves_of([d for d in sp["states"] if not d.get("quad")])
         ops += [["subject_to", {"lhs": [draw(st.sampled_from(tsig_))], "rel": "<=", "rhs": [E.C(draw(gen.small()))], "grid": "integrator_roots"}], ["sample"], ["clear_constraints"]]
+    if sp["T"][0] == "free" and draw(st.integers(0, 1)) == 0:
+        # a query, then the free horizon declared free again with another guess: the next query starts from the new guess
+        ops += [["sample"], ["set_T", draw(st.sampled_from([0.75, 1.25, 2.5])), True]]
     if draw(st.integers(0, 3)) == 0:
         # solve, then the same options dictionary edited in place and handed over again, then solve: the new limit must apply
         k1 = draw(st.integers(1, 3))
@@ -186,6 +190,7 @@ def declared_lists(ocp):
 
 
 def check(case, ctx):
+    from rockit import FreeTime
     model = copy.deepcopy(case["spec"])
     rng = np.random.default_rng(case["rng"])
     fails = []
@@ -308,11 +313,15 @@ def check(case, ctx):
             ocp.solver("ipopt", opts)
             model["solver"] = ["ipopt", op[1]]
         elif kind == "set_T":
-            ocp.set_T(op[1])
-            model["T"] = ["num", op[1]]
+            free_ = len(op) > 2 and op[2]
+            ocp.set_T(FreeTime(op[1]) if free_ else op[1])
+            model["T"] = ["free" if free_ else "num", op[1]]
+            model["initial"] = [it for it in model["initial"] if it[0] != "T"]
         elif kind == "set_t0":
-            ocp.set_t0(op[1])
-            model["t0"] = ["num", op[1]]
+            free_ = len(op) > 2 and op[2]
+            ocp.set_t0(FreeTime(op[1]) if free_ else op[1])
+            model["t0"] = ["free" if free_ else "num", op[1]]
+            model["initial"] = [it for it in model["initial"] if it[0] != "t0"]
         elif kind in ("sample", "value", "jacobian", "substage_sample", "solve"):
             solved = None
             if kind == "sample":
